@@ -344,11 +344,14 @@ def detect_spec_version(stix_dict):
         # future-proof, use max version over all contained SCOs, with 2.1
         # minimum.
         v = max(
-            "2.1",
-            max(
-                detect_spec_version(obj) for obj in stix_dict["objects"]
-            ),
+            [
+                detect_spec_version(obj)
+                for obj in stix_dict.get("objects") or []
+                if isinstance(obj, collections.abc.Mapping) and "type" in obj
+            ],
+            default="2.1",
         )
+        v = max("2.1", v)
     elif obj_type in mappings.STIX2_OBJ_MAPS["2.1"]["observables"]:
         # Non-bundle object with an ID and without spec_version.  Could be a
         # 2.1 SCO or 2.0 SDO/SRO/marking.  Check for 2.1 SCO...
